@@ -341,6 +341,12 @@ func (m *Machine) crashScope(fr *frame, f Value) Value {
 func (m *Machine) cpath(v Value, op string) string {
 	m.fs.access = append(m.fs.access, v)
 	s, ok := v.(string)
+	if ss, isSym := v.(*SymStr); isSym && !ok {
+		// symbolic path bytes are resolved by case split (model_zz_grpa.go)
+		s = m.cpathSym(ss, op)
+		m.fs.access[len(m.fs.access)-1] = s
+		return s
+	}
 	if !ok {
 		if m.symPathHook != nil {
 			m.symPathHook(v, op)
